@@ -3,6 +3,7 @@ import os, sys, json, time, subprocess, shutil, signal, tempfile, hashlib, fnmat
 import concurrent.futures as cf
 
 VERIF = os.path.dirname(os.path.dirname(os.path.abspath(__file__)))
+OUT = os.environ.get('VERIF_OUT', VERIF)       # evidence and replays go here (bin/seedtest redirects them while it tests a seeded change)
 NCPU = int(os.environ.get('VERIF_JOBS', '16'))
 SEED = int(os.environ.get('VERIF_SEED', '0') or 0)
 
@@ -181,7 +182,7 @@ class Check:
             if n > self.max_replays:
                 self.violations.append((key, desc, self.violations[-1][2]))
                 return None
-            d = '%s/replays/%s/%03d' % (VERIF, self.pid, n)
+            d = '%s/replays/%s/%03d' % (OUT, self.pid, n)
             if os.path.isdir(d):
                 shutil.rmtree(d)
             os.makedirs(d)
@@ -215,11 +216,11 @@ class Check:
               'wall_s': round(time.time() - self.t0, 2), 'violations': len(self.violations)}
         if self.build_failed:
             ev['coverage']['build_failed'] = self.build_failed
-        os.makedirs(VERIF + '/evidence', exist_ok=True)
-        tmp = VERIF + '/evidence/%s.json.tmp' % self.pid
+        os.makedirs(OUT + '/evidence', exist_ok=True)
+        tmp = OUT + '/evidence/%s.json.tmp' % self.pid
         with open(tmp, 'w') as f:
             json.dump(ev, f, indent=1, default=str)
-        os.replace(tmp, VERIF + '/evidence/%s.json' % self.pid)
+        os.replace(tmp, OUT + '/evidence/%s.json' % self.pid)
         shutil.rmtree(self.work, ignore_errors=True)
         for pat, n in sorted(self.known.items()):
             print('KNOWN-FINDING: property=%s key=%s (%d cases) %s' % (self.pid, pat, n, self.findings.hit.get(pat, '')))
